@@ -104,6 +104,16 @@ def parse_item(toks, i, hi):
             toks[i].text == 'const' and toks[i + 1].text in ('fn', 'unsafe')):
         i += 1
     kw = toks[i].text
+    if toks[i].kind == 'ident' and kw not in ITEM_KW and i + 2 < hi and toks[i + 1].text == '!' and toks[i + 2].text in ('{', '(', '['):
+        # item-position macro invocation, e.g. `impl_counter! { u32 u64 u128 }`
+        k = match_close(toks, i + 2)
+        it.kw = i
+        it.kind = 'macro_call'
+        it.name = kw
+        it.hi = k + 1
+        if k + 1 < hi and toks[k + 1].text == ';':
+            it.hi = k + 2
+        return it
     if toks[i].kind != 'ident' or kw not in ITEM_KW:
         return None
     it.kw = i
